@@ -54,6 +54,11 @@ from common import FORMAT_DIFF, Run, Scratch, base_env, require_bins  # noqa: E4
 
 PROP = "C19"
 
+# Testing aid (mutation checks of the driver itself): run another build of the tool.  Never set by ./check.
+if os.environ.get("VERIF_C19_SUBJECT"):
+    FORMAT_DIFF = os.environ["VERIF_C19_SUBJECT"]
+    print(f"[C19] WARNING: subject overridden: {FORMAT_DIFF}", file=sys.stderr)
+
 # --------------------------------------------------------------------------- alphabet
 
 LETTERS = {
@@ -214,29 +219,60 @@ def make_diff(dc):
     return out.decode("ascii")
 
 
+_ENV_CACHE = {}
+
+
 def run_tool(diff_text, p, filt_arg, exit_status):
-    """Feed the diff to the real rustfmt-format-diff; returns (rc, stdout, stderr, records)."""
+    """Feed the diff to the real rustfmt-format-diff; returns (rc, stdout, stderr, records, argv).
+    stdin / stdout / stderr are plain files so that no pipe juggling is needed per run."""
     d = workdir()
     log = os.path.join(d, "argv.log")
+    fin, fout, ferr = (os.path.join(d, n) for n in ("stdin.diff", "stdout.txt", "stderr.txt"))
     if os.path.exists(log):
         os.unlink(log)
+    if getattr(_TLS, "stdin_text", None) != diff_text:
+        with open(fin, "w") as fh:
+            fh.write(diff_text)
+        _TLS.stdin_text = diff_text
     argv = [FORMAT_DIFF, "-p", str(p)]
     if filt_arg is not None:
         argv += ["-f", filt_arg]
-    env = base_env(extra={"RUSTFMT": STANDIN, "C19_LOG": log, "C19_EXIT": str(exit_status)})
-    rc, out, err = common.run(argv, cwd=d, env=env, stdin=diff_text)
+    key = (log, exit_status)
+    env = _ENV_CACHE.get(key)
+    if env is None:
+        env = _ENV_CACHE[key] = base_env(extra={"RUSTFMT": STANDIN, "C19_LOG": log, "C19_EXIT": str(exit_status)})
+    i = os.open(fin, os.O_RDONLY)
+    o = os.open(fout, os.O_WRONLY | os.O_CREAT | os.O_TRUNC)
+    e = os.open(ferr, os.O_WRONLY | os.O_CREAT | os.O_TRUNC)
+    cwd = os.getcwd()
+    try:
+        os.chdir(d)
+        pid = os.posix_spawn(
+            FORMAT_DIFF,
+            argv,
+            env,
+            file_actions=[(os.POSIX_SPAWN_DUP2, i, 0), (os.POSIX_SPAWN_DUP2, o, 1), (os.POSIX_SPAWN_DUP2, e, 2)],
+        )
+    finally:
+        os.chdir(cwd)
+        for fd in (i, o, e):
+            os.close(fd)
+    _pid, status = os.waitpid(pid, 0)
+    rc = os.waitstatus_to_exitcode(status)
+    out = common.read(fout)
+    err = common.read(ferr)
     records = []
     if os.path.exists(log):
         parts = common.read(log).split(b"\0")
         if parts[-1] != b"":
             raise Machinery("stand-in log is truncated")
         parts = parts[:-1]
-        i = 0
-        while i < len(parts):
-            n = int(parts[i])
-            records.append([a.decode("utf-8", "replace") for a in parts[i + 1 : i + 1 + n]])
-            i += 1 + n
-        if i != len(parts):
+        k = 0
+        while k < len(parts):
+            n = int(parts[k])
+            records.append([a.decode("utf-8", "replace") for a in parts[k + 1 : k + 1 + n]])
+            k += 1 + n
+        if k != len(parts):
             raise Machinery("stand-in log is malformed")
     return rc, out.decode("utf-8", "replace"), err.decode("utf-8", "replace"), records, argv
 
@@ -258,9 +294,10 @@ GIT_EXT = (
 
 
 def parse_and_verify(dc, text):
-    """Returns [ {"name": post-image name, "plus_path": path in the +++ header,
-                  "hunks": [(new_start, new_count, heading)], "added": [...]} ] for sections
-    that have a post-image.  Raises Machinery when the diff is not what the trees say."""
+    """Returns one dict per file section of the diff: {"old_name", "name" (post-image file),
+    "has_post" (the file exists in the new tree), "plus_path" (path in the +++ header or None),
+    "hunks": [{"start", "count", "count_missing", "heading"}]}.
+    Raises Machinery when the diff is not what the two trees say."""
     files = {f["name"]: f for f in dc["files"]}
     style, u = dc["style"], dc["U"]
     starts = {}
@@ -513,11 +550,22 @@ def combos_for(sections):
     return out
 
 
+_DIFF_CACHE = {}
+
+
 def evaluate(case, diff_text=None, sections=None):
     """Run one fully specified case against the real binaries."""
     if diff_text is None:
-        diff_text = make_diff(case)
-        sections = parse_and_verify(case, diff_text)
+        k = diffcase_id(case)
+        hit = _DIFF_CACHE.get(k)
+        if hit is None:
+            diff_text = make_diff(case)
+            sections = parse_and_verify(case, diff_text)
+            if len(_DIFF_CACHE) > 5000:
+                _DIFF_CACHE.clear()
+            _DIFF_CACHE[k] = (diff_text, sections)
+        else:
+            diff_text, sections = hit
     _n, farg, _v = FILTER_BY_NAME[case["f"]]
     rc, out, err, records, argv = run_tool(diff_text, case["p"], farg, case["x"])
     res = judge(sections, case["p"], case["f"], case["x"], rc, records)
@@ -534,7 +582,7 @@ def changed_any(dc):
 
 def run_diffcase(dc):
     """Worker: one diff, every (-p, filter, exit) point.  Returns a summary."""
-    out = {"id": diffcase_id(dc), "evals": 0, "nontrivial": [], "fail": [], "counts": {}, "sample": None, "err": None}
+    out = {"id": diffcase_id(dc), "evals": 0, "nontrivial": [], "fail": [], "counts": {}, "sample": None, "err": None, "all": []}
     try:
         text = make_diff(dc)
         sections = parse_and_verify(dc, text)
@@ -562,6 +610,7 @@ def run_diffcase(dc):
             case = dict(dc, p=p, f=fname, x=x)
             res = evaluate(case, text, sections)
             out["evals"] += 1
+            out["all"].append((p, fname, x, res["what"]))
             c("runs_class_" + res["class"])
             if res["abnormal"]:
                 c("abnormal_exit")
@@ -589,6 +638,10 @@ def run_diffcase(dc):
 
 # --------------------------------------------------------------------------- reduction of violations
 #
+# Two phases: a free one that only moves through cases of the quick space (outcomes recorded by the
+# main pass of either tier, because the thorough space contains the quick space), then a paid one
+# that tries every candidate against the real binaries.  A run of the quick space therefore gets the
+# same witness in both tiers.
 # Every step replaces the case by a strictly simpler one (fewer files, smaller -p, default filter,
 # GNU style, fewer context lines, fewer lines, more `Q` lines, earlier file name) that STILL shows the
 # same kind of violation when run against the real binaries; the fixpoint is the reported witness.
@@ -598,8 +651,25 @@ _WIT = {}  # case id + what -> witness (json)
 NAME_POOL = ["x.rs", "y.rs", "a/b/c.rs", "a/b/d.rs", "src/m.txt"]
 
 
+_KNOWN = {}  # canonical case id -> what, for every run of the main pass (free look-ups)
+
+
+def canon(case):
+    """Unchanged files do not appear in the diff at all: the bytes on stdin are the same without
+    them, so dropping them is an identity for the tool.  Cases are reduced in this form."""
+    fs = [
+        f
+        for f in case["files"]
+        if (f["old"] is None) != (f["new"] is None) or (f["old"] is not None and f["old"] != f["new"])
+    ]
+    return dict(case, files=sorted(fs, key=lambda f: f["name"]))
+
+
 def still_fails(case, what):
+    case = canon(case)
     k = case_id(case)
+    if k in _KNOWN:
+        return _KNOWN[k] == what
     w = _MEMO.get(k, "?")
     if w == "?":
         try:
@@ -610,7 +680,66 @@ def still_fails(case, what):
     return w == what
 
 
-def candidates(case):
+LETTER_ORDER = "QPAH"
+FILTER_ORDER = [f[0] for f in FILTERS]
+
+
+def measure(c):
+    """Total well-founded order on cases; every reduction step goes strictly down."""
+    files = c["files"]
+    vs = [v for f in files for v in (f["old"], f["new"])]
+    return (
+        len(files),
+        tuple(NAME_POOL.index(f["name"]) for f in files),
+        sum(len(v["l"]) for v in vs if v is not None),
+        STYLES.index(c["style"]),
+        tuple((-1,) if v is None else tuple(LETTER_ORDER.index(ch) for ch in v["l"]) for v in vs),
+        sum(1 for v in vs if v is not None and not v["nl"]),
+        c["U"],
+        c["p"],
+        FILTER_ORDER.index(c["f"]),
+        c["x"],
+    )
+
+
+def map_letters(case, table):
+    def mv(v):
+        return None if v is None else V("".join(table.get(ch, ch) for ch in v["l"]), v["nl"])
+
+    return dict(case, files=[dict(f, old=mv(f["old"]), new=mv(f["new"])) for f in case["files"]])
+
+
+def version_steps(f):
+    """(old, new) pairs simpler than f's."""
+    o, n = f["old"], f["new"]
+    if o is not None and n is not None:
+        so, sn = o["l"], n["l"]
+        for a in range(len(so)):
+            for b in range(len(sn)):
+                if so[a] == sn[b]:
+                    yield V(so[:a] + so[a + 1 :], o["nl"] or len(so) == 1), V(sn[:b] + sn[b + 1 :], n["nl"] or len(sn) == 1)
+        yield None, n
+    if o is None and n is not None:
+        yield V(""), n
+    if n is None and o is not None:
+        yield o, V("")
+    for side, v in (("old", o), ("new", n)):
+        if v is None:
+            continue
+        s_ = v["l"]
+        outs = []
+        if not v["nl"]:
+            outs.append(V(s_, True))
+        for k in range(len(s_)):
+            outs.append(V(s_[:k] + s_[k + 1 :], v["nl"] or len(s_) == 1))
+        for k in range(len(s_)):
+            for ch in LETTER_ORDER[: LETTER_ORDER.index(s_[k])]:
+                outs.append(V(s_[:k] + ch + s_[k + 1 :], v["nl"]))
+        for w in outs:
+            yield (w, n) if side == "old" else (o, w)
+
+
+def raw_candidates(case):
     files = case["files"]
     nf = len(files)
 
@@ -621,21 +750,19 @@ def candidates(case):
     if nf > 1:
         for i in range(nf):
             yield dict(case, files=files[:i] + files[i + 1 :])
-    # 2. parameters
-    params = []
-    for p in range(case["p"]):
-        params.append({"p": p})
-    if case["f"] not in ("default", "invalid"):
-        params.append({"f": "default"})
-        for p in range(case["p"]):
-            params.append({"f": "default", "p": p})
+    # 2. simpler parameters
     if case["x"] != 0:
-        params.append({"x": 0})
+        yield dict(case, x=0)
     if case["style"] != "gnu":
-        params.append({"style": "gnu"})
-    for kw in params:
-        yield dict(case, **kw)
-    # 3. earlier file name, alone or together with simpler parameters
+        yield dict(case, style="gnu")
+    if case["f"] != "invalid":
+        for fi in range(FILTER_ORDER.index(case["f"])):
+            yield dict(case, f=FILTER_ORDER[fi])
+        for p in range(case["p"]):
+            yield dict(case, p=p)
+            for fn in FILTER_ORDER[:-1]:
+                yield dict(case, p=p, f=fn)
+    # 3. earlier file names (the parameters may have to change with the name)
     used = {f["name"] for f in files}
     for i, f in enumerate(files):
         for name in NAME_POOL[: NAME_POOL.index(f["name"])]:
@@ -643,61 +770,77 @@ def candidates(case):
                 continue
             c = with_file(i, name=name)
             yield c
-            for kw in params:
-                yield dict(c, **kw)
-    # 4. all lines of one kind become Q
-    for ch in "AHP":
-        if any(ch in (v or {"l": ""})["l"] for f in files for v in (f["old"], f["new"])):
-            yield dict(
-                case,
-                files=[
-                    dict(
-                        f,
-                        old=None if f["old"] is None else V(f["old"]["l"].replace(ch, "Q"), f["old"]["nl"]),
-                        new=None if f["new"] is None else V(f["new"]["l"].replace(ch, "Q"), f["new"]["nl"]),
-                    )
-                    for f in files
-                ],
-            )
-    # 5. file versions
-    def version_steps(f):
-        """(old, new) pairs simpler than f's."""
-        o, n = f["old"], f["new"]
-        if o is not None and n is not None:
-            so, sn = o["l"], n["l"]
-            for a in range(len(so)):
-                for b in range(len(sn)):
-                    if so[a] == sn[b]:
-                        yield V(so[:a] + so[a + 1 :], o["nl"] or len(so) == 1), V(sn[:b] + sn[b + 1 :], n["nl"] or len(sn) == 1)
-            for a in range(len(so)):
-                for b in range(len(sn)):
-                    if so[a] == sn[b] and so[a] != "Q":
-                        yield V(so[:a] + "Q" + so[a + 1 :], o["nl"]), V(sn[:b] + "Q" + sn[b + 1 :], n["nl"])
-            yield None, n
-        for side, v in (("old", o), ("new", n)):
-            if v is None:
-                continue
-            s = v["l"]
-            outs = []
-            if not v["nl"]:
-                outs.append(V(s, True))
-            for k in range(len(s)):
-                outs.append(V(s[:k] + s[k + 1 :], v["nl"] or len(s) == 1))
-            for k in range(len(s)):
-                if s[k] != "Q":
-                    outs.append(V(s[:k] + "Q" + s[k + 1 :], v["nl"]))
-            for w in outs:
-                yield (w, n) if side == "old" else (o, w)
-
+            if case["f"] != "invalid":
+                for p in range(4):
+                    for fn in FILTER_ORDER[:-1]:
+                        yield dict(c, p=p, f=fn)
+    for i in range(nf):
+        for j in range(i + 1, nf):
+            fs = list(files)
+            fs[i] = dict(files[i], name=files[j]["name"])
+            fs[j] = dict(files[j], name=files[i]["name"])
+            yield dict(case, files=fs)
+    # 4. lines of one kind all become a simpler kind; two kinds swap
+    present = {ch for f in files for v in (f["old"], f["new"]) if v is not None for ch in v["l"]}
+    for ch in LETTER_ORDER[::-1]:
+        if ch in present:
+            for lo in LETTER_ORDER[: LETTER_ORDER.index(ch)]:
+                yield map_letters(case, {ch: lo})
+    for ch in present:
+        for lo in present:
+            if LETTER_ORDER.index(lo) < LETTER_ORDER.index(ch):
+                yield map_letters(case, {ch: lo, lo: ch})
+    # 5. simpler file versions (fewer context lines usually need a shorter file to show the same thing)
     for i, f in enumerate(files):
         for o, n in version_steps(f):
             c = with_file(i, old=o, new=n)
             yield c
-            # fewer context lines usually need a shorter file to show the same thing
             for u in range(case["U"]):
                 yield dict(c, U=u)
     for u in range(case["U"]):
         yield dict(case, U=u)
+
+
+def candidates(case):
+    m = measure(case)
+    seen = set()
+    for c in raw_candidates(case):
+        c = canon(c)
+        if not c["files"]:
+            continue
+        k = case_id(c)
+        if k in seen:
+            continue
+        seen.add(k)
+        if measure(c) < m:
+            yield c
+
+
+_KNOWN_Q = {}  # the part of _KNOWN that belongs to the quick space
+
+
+def reduce_free(case, what, cache):
+    """Reduction steps through cases of the quick space whose outcome the main pass has recorded
+    (no process is run; candidates outside that space are skipped here and tried by reduce_case)."""
+    cur = case
+    path = []
+    while True:
+        k = case_id(cur)
+        if k in cache:
+            cur = cache[k]
+            break
+        path.append(k)
+        nxt = None
+        for cand in candidates(cur):
+            if _KNOWN_Q.get(case_id(cand), "?") == what:
+                nxt = cand
+                break
+        if nxt is None:
+            break
+        cur = nxt
+    for k in path:
+        cache[k] = cur
+    return cur
 
 
 def reduce_case(item):
@@ -714,7 +857,6 @@ def reduce_case(item):
         path.append(key)
         nxt = None
         for cand in candidates(cur):
-            cand = dict(cand, files=sorted(cand["files"], key=lambda f: f["name"]))
             if still_fails(cand, what):
                 nxt = cand
                 break
@@ -791,6 +933,18 @@ def all_lists(maxlen, alphabet="PQHA"):
     return out
 
 
+# per-file changes whose products over 2-3 files form part 3 of the space
+SMALL = [
+    (V("PQQ"), V("PQQ")),  # unchanged
+    (V("PQP"), V("PQPQ")),  # append: `+4` without count at -U0
+    (V("QQQ"), V("HQQQQ")),  # decoy header in the first of two hunks
+    (V("PQ"), None),  # file deleted
+    (V("PQA"), V("PQ")),  # pure deletion hunk
+    (None, V("QQ")),  # file created
+]
+SMALL_THOROUGH = [(V("PPP"), V("PPPQ")), (V("QAQ"), V("HAQ")), (V("PQA"), V("QQAH"))]
+
+
 def file_changes(thorough):
     """Catalogue of (old version, new version) pairs of one file that exists on both sides."""
     seen = set()
@@ -807,9 +961,10 @@ def file_changes(thorough):
 
     if thorough:
         bases = all_lists(3) + ["QAQP", "PQHA", "PPPP", "QQQQ"]
-        il = rl = fl = ll = "PQHA"
+        il = rl = "PQHA"
+        fl, ll = "HQ", "QA"
     else:
-        bases = ["", "Q", "PPP", "PQA", "QQQ", "QAQP"]
+        bases = ["", "Q", "PPP", "PQA", "QAQP"]
         il = rl = "QH"
         fl, ll = "HQ", "QA"
     for b in bases:
@@ -818,6 +973,9 @@ def file_changes(thorough):
     for b in bases:
         for _t, n in double_edits(b, fl, ll):
             add(b, n)
+    for o, n in SMALL + SMALL_THOROUGH:
+        if o is not None and n is not None:
+            add(o["l"], n["l"])
     # final-newline changes
     add("PQ", "PQ", True, False)
     add("PQ", "PQ", False, True)
@@ -828,6 +986,23 @@ def file_changes(thorough):
 
 
 def enumerate_diffcases(thorough):
+    """Every (tree pair, style, context) of the tier, simplest first.  The thorough space contains
+    the quick space; "quick" marks the members of the latter."""
+    quick = enumerate_trees(False)
+    qset = {tree_repr(t) for t in quick}
+    trees = quick
+    if thorough:
+        trees = quick + [t for t in enumerate_trees(True) if tree_repr(t) not in qset]
+    dcs = []
+    for files in trees:
+        for style in STYLES:
+            for u in (0, 1, 2, 3):
+                dcs.append({"style": style, "U": u, "files": files})
+    dcs.sort(key=size_key)
+    return dcs, qset
+
+
+def enumerate_trees(thorough):
     """All tree pairs of the tier (without style / U), each a list of file dicts sorted by name."""
     trees = []
     seen = set()
@@ -852,14 +1027,14 @@ def enumerate_diffcases(thorough):
         add([F("x.rs", o, n), F("src/m.txt", V("PQ"), V("PQ"))])
     # the same on a deep path (-p 2, 3) and on a path the default filter rejects
     if thorough:
-        sub = [(o, n) for o, n in cat if len(o["l"]) in (0, 3)]
+        sub = [(o, n) for o, n in cat if o["l"] in ("", "Q", "PQA", "QQQ", "PPP", "HQA", "QAQP", "PQP", "QAQ")]
     else:
-        sub = [(o, n) for o, n in cat if o["l"] in ("", "PQA", "QQQ")]
+        sub = [(o, n) for o, n in cat if o["l"] in ("", "PQA") or (o, n) in SMALL]
     for focus in ("a/b/c.rs", "src/m.txt"):
         for o, n in sub:
             add([F(focus, o, n), F(sib[focus], V("PQ"), V("PQ"))])
     # part 2: file-level events
-    conts = ["Q", "PQA", "HQ"] + (["", "QQQQQ", "AH"] if thorough else [])
+    conts = ["Q", "PQ", "QQ", "PQA", "HQ"] + (["", "QQQQQ", "AH"] if thorough else [])
     for name in ("x.rs", "a/b/c.rs", "src/m.txt"):
         for c in conts:
             add([F(name, V(c), None), F(sib[name], V("PQ"), V("PQ"))])  # deletion
@@ -869,17 +1044,10 @@ def enumerate_diffcases(thorough):
         add([F("a/b/c.rs", V(c), None), F("a/b/d.rs", None, V(c2))])
         add([F("src/m.txt", V(c), None), F("x.rs", None, V(c2))])  # rename across the filter
     # part 3: products of a small per-file catalogue over 2-3 files
-    small = [
-        (V("PQQ"), V("PQQ")),  # unchanged
-        (V("PQP"), V("PQPQ")),  # append: `+4` without count at -U0
-        (V("QQQ"), V("HQQQQ")),  # decoy header in the first of two hunks
-        (V("PQ"), None),  # file deleted
-        (V("PQA"), V("PQ")),  # pure deletion hunk
-        (None, V("QQ")),  # file created
-    ]
-    if thorough:
-        small += [(V("PPP"), V("PPPQ")), (V("QAQ"), V("HAQ")), (V("PQA"), V("QQAH"))]
+    small = SMALL + (SMALL_THOROUGH if thorough else [])
     name_sets = [("a/b/c.rs", "x.rs"), ("src/m.txt", "x.rs"), ("a/b/c.rs", "src/m.txt"), ("a/b/c.rs", "a/b/d.rs")]
+    if not thorough:
+        name_sets = [name_sets[0], name_sets[1], name_sets[3]]
     for ns in name_sets:
         for c0 in small:
             for c1 in small:
@@ -889,13 +1057,7 @@ def enumerate_diffcases(thorough):
         for c1 in three:
             for c2 in three:
                 add([F("a/b/c.rs", *c0), F("src/m.txt", *c1), F("x.rs", *c2)])
-    dcs = []
-    for files in trees:
-        for style in STYLES:
-            for u in (0, 1, 2, 3):
-                dcs.append({"style": style, "U": u, "files": files})
-    dcs.sort(key=size_key)
-    return dcs
+    return trees
 
 
 # --------------------------------------------------------------------------- replay
@@ -962,7 +1124,7 @@ def main():
         ],
     )
     with setup_scratch():
-        dcs = enumerate_diffcases(run.thorough)
+        dcs, qset = enumerate_diffcases(run.thorough)
         run.count("tree_pairs", len({tree_repr(d["files"]) for d in dcs}))
         results = pmap(run_diffcase, dcs)
         print(f"[C19] main pass done at {time.time() - run.start:.1f}s", file=sys.stderr)
@@ -985,21 +1147,49 @@ def main():
         # every violating run is reduced; the witness is run again (twice in total) before it is
         # reported, and a violating run that does not reproduce is its own witness and is reported
         # as nondeterministic by that second run
-        stable = fails
         global _MEMO, _WIT
+        for dc, r in zip(dcs, results):
+            for p, fname, x, what in r["all"]:
+                k = case_id(canon(dict(dc, p=p, f=fname, x=x)))
+                _KNOWN[k] = what
+                if tree_repr(dc["files"]) in qset:
+                    _KNOWN_Q[k] = what
+        # free steps: drop unchanged files; of the violating runs of one diff keep the simplest parameters
+        best = {}
+        for case, what in fails:
+            c = canon(case)
+            k = (diffcase_id(c), what)
+            if k not in best or measure(c) < measure(best[k]):
+                best[k] = c
+        run.count("violating_diffs", len(best))
+        # cheap pre-reduction through cases of the QUICK space only (their outcomes are known in
+        # both tiers, so a run of the quick space gets the same witness in both tiers)
+        free = {}
+        caches = {}
+        for k, c in best.items():
+            free[k] = reduce_free(c, k[1], caches.setdefault(k[1], {}))
+        starts = {}
+        for k, c in free.items():
+            starts[(case_id(c), k[1])] = (c, k[1])
+        stable = sorted(starts.values(), key=lambda cw: (measure(cw[0]), cw[1]))
+        run.count("reduction_starts", len(stable))
+        print(f"[C19] {len(fails)} violating runs -> {len(stable)} reduction starts at {time.time() - run.start:.1f}s", file=sys.stderr)
         mgr = None
         if len(stable) > 50:
             import multiprocessing
 
             mgr = multiprocessing.get_context("fork").Manager()
             _MEMO, _WIT = mgr.dict(), mgr.dict()
-        witnesses = pmap(reduce_case, stable, chunk=8)
+        witnesses = pmap(reduce_case, stable, chunk=2)
         run.count("reduction_runs", len(_MEMO))
         if mgr is not None:
             mgr.shutdown()
         print(f"[C19] reduced at {time.time() - run.start:.1f}s", file=sys.stderr)
+        wit_of_start = {(case_id(c), w): wit for (c, w), wit in zip(stable, witnesses)}
         groups = {}
-        for (case, what), w in zip(stable, witnesses):
+        for case, what in fails:
+            st = free[(diffcase_id(canon(case)), what)]
+            w = wit_of_start[(case_id(st), what)]
             g = groups.setdefault((case_id(w), what), {"case": w, "what": what, "from": []})
             g["from"].append(case_id(case))
         for (wid, what), g in sorted(groups.items(), key=lambda kv: (witness_key(kv[1]["case"]), kv[0][1])):
